@@ -113,4 +113,28 @@ theorem check_congr_load {F σ τ : Type} (statOk : Bool) (ext : Ext) (load1 loa
   have : load1 = load2 := funext h
   rw [this]
 
+/-- `Except.map` on loader results -/
+def mapLoad {F V : Type} (view : F → V) : Except LoadErr F → Except LoadErr V
+  | .ok f => .ok (view f)
+  | .error e => .error e
+
+/-- if `ctx` is built from a VIEW of the loaded file (e.g. the entries without `linenum`), `check` only sees the view -/
+theorem check_map_load {F V σ τ : Type} (statOk : Bool) (ext : Ext) (load : Bool → Except LoadErr F) (view : F → V)
+    (init : V → Bool → σ) (stages : List (Stage σ τ)) :
+    check statOk ext load (fun f b => init (view f) b) stages
+      = check statOk ext (fun retry => mapLoad view (load retry)) init stages := by
+  unfold check
+  cases statOk
+  · rfl
+  · simp only [Bool.not_true, Bool.false_eq_true, if_false]
+    by_cases he : ext = .other
+    · simp [he]
+    · simp only [he, if_false]
+      rcases h0 : load false with e0 | f0
+      · cases e0 <;> simp only [mapLoad]
+        rcases h1 : load true with e1 | f1
+        · cases e1 <;> simp only
+        · simp only
+      · simp only [mapLoad]
+
 end I18n.Meta
